@@ -156,6 +156,7 @@ impl Prop for C06 {
         vec![
             "whether an approval is still live after heartbeats/pruning is read from the node (only the existence of the approval, never amounts)".into(),
             "when a hash is approved again after its earlier approval was pruned, the allowance is the sum of the approvals granted, each with its own routing-fee allowance (sound upper bound)".into(),
+            "once the signer has been given the preimage of a hash (htlcs_fulfilled) the hash is excluded from the in-flight bound: its incoming HTLCs may be settled while outgoing ones remain".into(),
             "the tolerated imbalance of an already-known uninvoiced routed payment (issue 331) is outside the oracle, including hashes whose approval (first, or a new one after the earlier approval expired and was pruned) arrives only after such HTLCs were accepted".into(),
         ]
     }
@@ -380,6 +381,13 @@ impl Prop for C06 {
                     let res = w.with_chan(ci, |c| { c.htlcs_fulfilled(vec![pre]); Ok(()) });
                     tag = res.tag();
                     if res.is_panic() { dead = true; }
+                    if res.is_ok() {
+                        // the signer knows the preimage from now on: incoming HTLCs of this hash are
+                        // as good as received and may be settled (removed) while outgoing ones are
+                        // still in flight; the in-flight ledger does not model settlement
+                        tainted.insert(*h);
+                        st.class("hash_fulfilled(excluded from the in-flight bound)");
+                    }
                 }
                 Op::Heartbeat => {
                     kind = 7;
